@@ -268,6 +268,9 @@ func (g *gen) callees(c *ctx, want []Ty) []callee {
 			continue
 		}
 		cl.target = i + 1
+		if f.Pkg != pk && f.ParenFromA && !f.Method {
+			cl.target = 0 // registered under a ParenExpr: resultsAt finds nothing to follow
+		}
 		cl.perr = []bool{false, true, false}
 		cl.fun = func(c *ctx) string {
 			switch {
@@ -280,6 +283,8 @@ func (g *gen) callees(c *ctx, want []Ty) []callee {
 			case f.Method:
 				*c.needBT0 = true
 				return "bt0." + f.Name
+			case f.Pkg != pk && f.ParenFromA:
+				return "(b." + f.Name + ")"
 			case f.Pkg != pk:
 				return "b." + f.Name
 			}
@@ -555,6 +560,7 @@ func generate(r *core.RNG, mode string) *Prog {
 		}
 		for i := 0; i < nf; i++ {
 			f := &Func{Name: fmt.Sprintf("F%d", len(p.Funcs)), Pkg: pk, Method: r.Chance(20)}
+			f.ParenFromA = pk == pkgB && !f.Method && r.Chance(30)
 			switch k := r.Intn(10); {
 			case k < 4:
 				f.Cb = 0
@@ -639,6 +645,7 @@ func generate(r *core.RNG, mode string) *Prog {
 // callsOf: every declared function through its own package; functions of b also through a.
 func callsOf(p *Prog) []CallIR {
 	usedFromA := map[int]bool{}
+	parenFromA := map[int]bool{}
 	var walkE func(e *Expr)
 	var walkS func(ss []*Stmt)
 	walkE = func(e *Expr) {
@@ -647,6 +654,13 @@ func callsOf(p *Prog) []CallIR {
 		}
 		if e.K == "call" && e.Target > 0 && len(e.Fun) > 2 && e.Fun[:2] == "b." {
 			usedFromA[e.Target-1] = true
+		}
+		if e.K == "call" && len(e.Fun) > 3 && e.Fun[:3] == "(b." {
+			for i, f := range p.Funcs {
+				if f.Pkg == pkgB && !f.Method && e.Fun == "(b."+f.Name+")" {
+					parenFromA[i] = true
+				}
+			}
 		}
 		for _, a := range e.Args {
 			walkE(a)
@@ -680,6 +694,8 @@ func callsOf(p *Prog) []CallIR {
 		if f.Pkg == pkgB && !f.Method {
 			if usedFromA[i] {
 				cs = append(cs, CallIR{F: i, Via: pkgA, Entry: "selector"})
+			} else if parenFromA[i] {
+				cs = append(cs, CallIR{F: i, Via: pkgA, Entry: "other"})
 			} else {
 				cs = append(cs, CallIR{F: i, Via: pkgA, Entry: "sig"})
 			}
